@@ -67,6 +67,8 @@ def callback(item, *sketches, **kwargs):
         raise WorkerKilled()
     if RAISE[item] == 1:
         raise ValueError("boom before")
+    if RAISE[item] == 3:
+        return RET[item]       # a record that contains no key: counted, nothing added
     for s in sketches:
         s.add(b"k%d" % item)
     if RAISE[item] == 2:
@@ -232,6 +234,25 @@ def _pa_all(n_workers, a0, a1):
         and type(res[0]).__name__ == "CountMinLinear" and type(res[1]).__name__ == "HeavyHitters" and type(res[2]).__name__ == "HyperLogLog"
 
 
+def check_parallel_records_only(n_workers: int, a0: int, a1: int, r1: int) -> bool:
+    """
+    pre: 1 <= n_workers <= 3 and 0 <= a0 < n_workers and 0 <= a1 < n_workers and 0 <= r1 <= 10**6
+    post: _ == True
+    timeout: 600
+    """
+    for n in range(1, 4):
+        if n_workers == n:
+            n_workers = n
+    assign = [a0, a1]
+    RET[0], RET[1] = 2, r1
+    RAISE[0], RAISE[1] = 0, 3      # item 1 is a record without keys
+    _reset(assign)
+    res = _run_parallel(2, n_workers, assign, True, True, False)
+    ok = sorted(CALLBACK_LOG) == [0, 1] and isinstance(res, tuple) and len(res) == 2
+    RAISE[1] = 0
+    return ok and all(ival(sk.n_records()) == 2 + r1 for sk in res)
+
+
 def check_parallel_merging(n: int) -> bool:
     """
     pre: 1 <= n <= 9
@@ -393,8 +414,17 @@ def _real_parallel(n_items, n_workers, rets, fails, kinds, items=None):
 
 
 def real_callback(item, *sketches, rets=None, fails=None):
+    import time as _t
     if fails[item] == 1:
         raise ValueError("boom before")
+    if fails[item] == 3:
+        _t.sleep(2.5)          # keep this worker busy so that the other items go to other workers
+        return rets[item]
+    if fails[item] == 4:
+        _t.sleep(2.5)
+        for s in sketches:
+            s.add(b"k%d" % item)
+        return rets[item]
     for s in sketches:
         s.add(b"k%d" % item)
     if fails[item] == 2:
@@ -414,6 +444,27 @@ def real_parallel_add_all_w45(n_workers, a0, a1):
 
 def real_parallel_add_all(n_workers, a0, a1):
     return _real_parallel(2, n_workers, [3, 4], [0, 0], ["cms", "hh", "hll"])
+
+
+def real_parallel_records_only(n_workers, a0, a1, r1):
+    """real spawned run with three workers and three slow items (one per worker): one item has keys, two are records
+    without keys.  Whatever the OS assignment, both key-less workers end up on the argument side of some merge."""
+    rets, fails = [2, max(r1, 1), 3], [4, 3, 3]
+    for j in range(3):
+        RET[j], RAISE[j] = rets[j], fails[j]
+    last = (True, "")
+    for attempt in range(2):
+        try:
+            res = HELPERS.parallel_add([0, 1, 2], real_callback, n_workers=3, cms_args={"cms_type": "linear", "width": 64, "depth": 2},
+                                       hh_args={"width": 16, "depth": 2, "max_key_len": 3}, rets=list(rets), fails=list(fails))
+        except Exception as e:
+            return False, f"parallel_add raised {type(e).__name__}: {e}"
+        want = sum(rets)
+        got = [int(s.n_records()) for s in res]
+        last = (all(g == want for g in got), f"attempt {attempt}: n_records() of (count-min, heavy hitters) = {got}, sum of the callback's returns = {want}")
+        if not last[0]:
+            return last
+    return last
 
 
 def real_parallel_merging(n):
